@@ -361,9 +361,9 @@ func init() {
 			return Stage{Binary: "badger.fine", Scenario: "c34wm", Bound: bound, NShard: 6, BudgetS: budget, Params: prm("cases", 6)}
 		}
 		if q {
-			p.Stages = []Stage{wm(1, 30), wm(2, 45), wm(3, 40), sched("c03a", 1, 16, 25, nil), sched("c34load", 2, 16, 30, nil)}
+			p.Stages = []Stage{wm(1, 30), wm(2, 45), wm(3, 40), sched("c03a", 1, 16, 25, nil), sched("c34load", 1, 16, 20, nil), sched("c34load", 2, 16, 30, nil)}
 		} else {
-			p.Stages = []Stage{wm(2, 300), wm(3, 900), wm(4, 1200), sched("c03a", 2, 16, 600, nil), sched("c34load", 3, 16, 300, nil)}
+			p.Stages = []Stage{wm(2, 300), wm(3, 900), wm(4, 1200), sched("c03a", 2, 16, 600, nil), sched("c34load", 1, 16, 60, nil), sched("c34load", 3, 16, 300, nil)}
 		}
 		return p
 	}
